@@ -221,6 +221,14 @@ func checkLimitLiteral(c *core.Ctx, p *core.Program, fn *core.FuncRef, lit *ast.
 			if isLimit(a) == isLimit(b) {
 				return false, false
 			}
+			// a remaining-count compared with a constant: only "none left" (0) is the limit test
+			for _, side := range []string{a, b} {
+				if !isLimit(side) {
+					if k, isConst := constantInt(side); isConst && k != 0 {
+						return false, false
+					}
+				}
+			}
 			ntests := 0
 			for _, e := range st.Events {
 				if strings.HasPrefix(e.Name, "TEST") {
@@ -250,7 +258,9 @@ func checkLimitLiteral(c *core.Ctx, p *core.Program, fn *core.FuncRef, lit *ast.
 			return false, false
 		}
 		in.Hooks.Store = func(st *absint.State, obj types.Object, v absint.Val) {
-			if m := incRe.FindStringSubmatch(v.Canon()); m != nil && m[1] == obj.Name() {
+			// counting down from the limit (`remaining--` with remaining := limit) counts a row just as counting up does
+			countsDown := limitVars[obj.Name()] && (v.Canon() == "("+obj.Name()+" - 1)")
+			if m := incRe.FindStringSubmatch(v.Canon()); (m != nil && m[1] == obj.Name()) || countsDown {
 				st.Emit("INC "+obj.Name(), 0)
 				// two increments without a test in between: the verdict is already determined;
 				// stop exploring (answer every further undecided condition with false)
